@@ -715,3 +715,17 @@ def recv_field(f, op):
     pl = resolve_place(f, pl)
     names = [e[2] for e in pl.get("p", []) if e[0] == "f"]
     return names[-1] if names else None
+
+
+def def_call(f, l, depth=8):
+    """If `l` is (a chain of single-definition copies of) a call result, return (bb, term)."""
+    for _ in range(depth):
+        ds = [st for bb, ii, st in f.stmts() if st["k"] == "a" and st["lhs"]["l"] == l and not st["lhs"].get("p")]
+        cs = [(bb, t) for bb, t in f.calls() if t["k"] == "call" and t["dest"]["l"] == l and not t["dest"].get("p")]
+        if len(cs) == 1 and not ds:
+            return cs[0]
+        if len(ds) == 1 and not cs and ds[0]["rv"]["k"] == "use" and op_local(ds[0]["rv"]["o"]) is not None:
+            l = op_local(ds[0]["rv"]["o"])
+            continue
+        return None
+    return None
